@@ -63,6 +63,7 @@ from .utils import (
     MsgSet,
     compact_sequence,
     expand_sequence,
+    mbox_name_is_inside_maildir,
     sequence_set_to_list,
     utime,
 )
@@ -2877,6 +2878,13 @@ class Mailbox:
         # You can not create 'INBOX' nor, because of MH rules, create a mailbox
         # that is just the digits 0-9.
         #
+        # Like `get_mailbox()`: our namespace prefix is not part of the name
+        # and the name must stay inside the maildir.
+        #
+        name = name[1:] if name and name[0] == "/" else name
+        if not mbox_name_is_inside_maildir(name):
+            raise InvalidMailbox(f"Invalid mailbox name: '{name}'")
+
         if name.lower() == "inbox":
             raise InvalidMailbox("Can not create a mailbox named 'inbox'")
         if name.isdigit():
@@ -3104,6 +3112,10 @@ class Mailbox:
         - `server`: the user server object
         """
         mbox = await server.get_mailbox(old_name)
+
+        new_name = new_name[1:] if new_name and new_name[0] == "/" else new_name
+        if not mbox_name_is_inside_maildir(new_name):
+            raise InvalidMailbox(f"Invalid mailbox name: '{new_name}'")
 
         # A mailbox can not be moved underneath itself.
         #
